@@ -6,7 +6,11 @@ package vsym
 
 import (
 	crand "crypto/rand"
+	"encoding"
 	"encoding/json"
+	"reflect"
+
+	"github.com/fxamacker/cbor/v2"
 	"fmt"
 	"math/big"
 	"os"
@@ -211,3 +215,270 @@ func Op(name string)             {}
 func AssertLockset(label string) {}
 
 func Native() bool { return true }
+
+// ---------------------------------------------------------------- CborFor (native mirror of the engine's havoc decoder)
+
+func modelInt(name string, def int) int {
+	load()
+	if v, ok := model[name]; ok {
+		n, ok := new(big.Int).SetString(v, 10)
+		if ok {
+			return int(n.Int64())
+		}
+	}
+	return def
+}
+
+func modelBig(name string) *big.Int {
+	load()
+	if v, ok := model[name]; ok {
+		n, ok := new(big.Int).SetString(v, 10)
+		if ok {
+			return n
+		}
+	}
+	return new(big.Int)
+}
+
+func modelBytes(name string, n int) []byte {
+	out := make([]byte, n)
+	for i := range out {
+		out[i] = byte(modelInt(fmt.Sprintf("%s[%d]", name, i), 0))
+	}
+	return out
+}
+
+var buType = reflect.TypeOf((*encoding.BinaryUnmarshaler)(nil)).Elem()
+
+func isBU(t reflect.Type) bool {
+	return t.Kind() != reflect.Interface && reflect.PtrTo(t).Implements(buType)
+}
+
+func isByteSlice(t reflect.Type) bool {
+	return t.Kind() == reflect.Slice && t.Elem().Kind() == reflect.Uint8
+}
+
+func lensFor(t reflect.Type) []int {
+	switch t.String() {
+	case "curve.Secp256k1Scalar":
+		return []int{32, 0}
+	case "curve.Secp256k1Point":
+		return []int{33, 0}
+	case "polynomial.Exponent":
+		return []int{5, 3, 0}
+	case "hash.Commitment":
+		return []int{64, 0, 1}
+	case "hash.Decommitment", "types.RID":
+		return []int{32, 0, 1}
+	}
+	if isByteSlice(t) {
+		return []int{0, 1, 32}
+	}
+	return []int{0, 1, 2}
+}
+
+func chooseFrom(name string, vals []int) int {
+	if len(vals) == 1 {
+		return vals[0]
+	}
+	return modelInt(name, vals[0])
+}
+
+type absentT struct{}
+
+var absent = absentT{}
+
+// buildInto mirrors havocDecodeInto: returns the Go value to be CBOR-encoded for a destination of type t.
+func havocBytes(name string, n int) []byte {
+	k := Param("symbytes", 6)
+	out := modelBytes(name, n)
+	for i := k; i < n; i++ {
+		out[i] = 0xA5
+	}
+	return out
+}
+
+// exponentBytes mirrors the engine's special framing for polynomial.Exponent.
+func exponentBytes(name string) []byte {
+	switch chooseFrom(name+".xvar", []int{0, 1, 2}) {
+	case 1:
+		return modelBytes(name+".short", 3)
+	case 2:
+		return []byte{}
+	}
+	size := modelBytes(name+".size", 4)
+	pre := int(size[0])<<24 | int(size[1])<<16 | int(size[2])<<8 | int(size[3])
+	raw := name + ".raw"
+	doc := map[string]interface{}{"IsConstant": modelInt(raw+".IsConstant", 0) != 0}
+	if chooseFrom(raw+".Coefficients.mode", []int{1, 0}) == 1 {
+		n := chooseFrom(raw+".Coefficients.len", []int{0, 1, Param("havoclen", 2)})
+		arr := make([]interface{}, n)
+		for i := range arr {
+			en := fmt.Sprintf("%s.Coefficients[%d]", raw, i)
+			if i < pre { // pre-shaped point
+				if chooseFrom(en+".mode", []int{1, 0}) == 1 {
+					l := chooseFrom(en+".len", []int{33, 0})
+					arr[i] = havocBytes(en, l)
+				} else {
+					arr[i] = nil // "absent" inside an array: encode null (keeps the element untouched in cbor)
+				}
+			} else if chooseFrom(en+".mode", []int{0, 1}) == 1 {
+				arr[i] = []byte{1}
+			}
+		}
+		doc["Coefficients"] = arr
+	}
+	b, err := cbor.Marshal(doc)
+	if err != nil {
+		panic(err)
+	}
+	return append(size, b...)
+}
+
+func buildInto(t reflect.Type, cur reflect.Value, name string) interface{} {
+	if isBU(t) {
+		if t.String() == "polynomial.Exponent" {
+			return exponentBytes(name)
+		}
+		n := chooseFrom(name+".len", lensFor(t))
+		return havocBytes(name, n)
+	}
+	if t.String() == "big.Int" {
+		return modelBig(name)
+	}
+	switch t.Kind() {
+	case reflect.Int, reflect.Int8, reflect.Int16, reflect.Int32, reflect.Int64:
+		v := modelBig(name)
+		bits := uint(t.Bits())
+		if v.Bit(int(bits)-1) == 1 {
+			v = new(big.Int).Sub(v, new(big.Int).Lsh(big.NewInt(1), bits))
+		}
+		return v.Int64()
+	case reflect.Uint, reflect.Uint8, reflect.Uint16, reflect.Uint32, reflect.Uint64, reflect.Uintptr:
+		return modelBig(name).Uint64()
+	case reflect.Bool:
+		return modelInt(name, 0) != 0
+	case reflect.String:
+		n := chooseFrom(name+".len", []int{0, 1})
+		return string(modelBytes(name, n))
+	case reflect.Struct:
+		m := map[string]interface{}{}
+		for i := 0; i < t.NumField(); i++ {
+			f := t.Field(i)
+			if f.PkgPath != "" {
+				continue
+			}
+			if f.Type.Kind() == reflect.Struct && f.Type.NumField() == 0 {
+				continue
+			}
+			var fv reflect.Value
+			if cur.IsValid() {
+				fv = cur.Field(i)
+			}
+			v := buildField(f.Type, fv, name+"."+f.Name)
+			if _, isAbsent := v.(absentT); !isAbsent {
+				m[f.Name] = v
+			}
+		}
+		return m
+	case reflect.Array:
+		out := make([]interface{}, t.Len())
+		for i := range out {
+			var ev reflect.Value
+			if cur.IsValid() {
+				ev = cur.Index(i)
+			}
+			v := buildField(t.Elem(), ev, fmt.Sprintf("%s[%d]", name, i))
+			if _, isAbsent := v.(absentT); isAbsent {
+				v = nil
+			}
+			out[i] = v
+		}
+		return out
+	case reflect.Slice:
+		if isByteSlice(t) {
+			n := chooseFrom(name+".len", lensFor(t))
+			return havocBytes(name, n)
+		}
+		n := chooseFrom(name+".len", []int{0, 1, Param("havoclen", 2)})
+		out := make([]interface{}, n)
+		for i := range out {
+			v := buildField(t.Elem(), reflect.Value{}, fmt.Sprintf("%s[%d]", name, i))
+			if _, isAbsent := v.(absentT); isAbsent {
+				v = nil
+			}
+			out[i] = v
+		}
+		return out
+	case reflect.Map:
+		n := chooseFrom(name+".len", []int{0, 1, 2})
+		keys := []string{"a", "b", "zz", ""}
+		m := map[string]interface{}{}
+		for i := 0; i < n; i++ {
+			ki := chooseFrom(fmt.Sprintf("%s.key%d", name, i), []int{0, 1, 2, 3})
+			v := buildField(t.Elem(), reflect.Value{}, fmt.Sprintf("%s.val%d", name, i))
+			if _, isAbsent := v.(absentT); isAbsent {
+				v = nil
+			}
+			m[keys[ki]] = v
+		}
+		return m
+	}
+	panic("vsym.CborFor: unsupported type " + t.String())
+}
+
+func buildField(t reflect.Type, cur reflect.Value, name string) interface{} {
+	switch t.Kind() {
+	case reflect.Ptr:
+		modes := []int{0, 1}
+		pre := cur.IsValid() && !cur.IsNil()
+		if pre {
+			modes = []int{1, 0, 2}
+		}
+		switch chooseFrom(name+".mode", modes) {
+		case 0:
+			return absent
+		case 2:
+			return nil
+		}
+		var pv reflect.Value
+		if pre {
+			pv = cur.Elem()
+		}
+		return buildInto(t.Elem(), pv, name)
+	case reflect.Interface:
+		if !cur.IsValid() || cur.IsNil() {
+			if chooseFrom(name+".mode", []int{0, 1}) == 1 {
+				return []byte{1}
+			}
+			return absent
+		}
+		dyn := cur.Elem()
+		if dyn.Kind() != reflect.Ptr || dyn.IsNil() {
+			return absent
+		}
+		if chooseFrom(name+".mode", []int{1, 0}) == 0 {
+			return absent
+		}
+		return buildInto(dyn.Type().Elem(), dyn.Elem(), name)
+	case reflect.Slice, reflect.Map:
+		if chooseFrom(name+".mode", []int{1, 0}) == 0 {
+			return absent
+		}
+	}
+	return buildInto(t, cur, name)
+}
+
+func CborFor(dst interface{}, name string) []byte {
+	load()
+	v := reflect.ValueOf(dst)
+	if v.Kind() != reflect.Ptr || v.IsNil() {
+		panic("vsym.CborFor needs a non-nil pointer")
+	}
+	doc := buildInto(v.Type().Elem(), v.Elem(), name)
+	b, err := cbor.Marshal(doc)
+	if err != nil {
+		panic(err)
+	}
+	return b
+}
